@@ -9,6 +9,9 @@ import TonVerif.Proofs.CellSpec
 import TonVerif.Proofs.Prune
 import TonVerif.Proofs.OrdCell
 import TonVerif.Proofs.PruneWF
+import TonVerif.Proofs.SrcArith
+import TonVerif.Generated.LevelMask
+import TonVerif.Generated.CellArith
 
 namespace TonVerif.Properties.C02
 open TonVerif TonVerif.Model TonVerif.Proofs.CellSpec
@@ -156,5 +159,135 @@ example : PruneRel toyH 1 tree0 tree0Pruned ∧ TreeWF toyH tree0 ∧
     exact c02_prunable toyH toyH_32 .ordinary _ [] (by decide) leaf0_nodeWF 1 (by omega) (by omega)
   · refine ⟨Spec.node toyH .ordinary [true] [sLeaf0], by simp [tree0, leaf0, specInfo, specInfos, kindOf, sLeaf0], ?_⟩
     decide +kernel
+
+/-! ## Source-regenerated arithmetic (`Generated/LevelMask.lean`, `Generated/CellArith.lean`: re-translated from
+exotic.py / cell.py on every run by harness/translate/pyarith.py)
+
+`Generated.lmLevel / lmHashIndex / lmApply / lmIsSignificant` are the translations of `LevelMask.get_level /
+get_hash_index / apply / is_significant`; `Generated.prunedHashLo/Hi`, `prunedDepthOff/Lo/Hi` are the slice bounds that
+`Cell.get_hash` / `Cell.get_depth` use on a pruned branch.  Each theorem also proves the translator's side conditions
+(`*_sideOk`: the Nat subtractions `(1 << level) - 1` and `level - 1` never underflow where Python evaluates them). -/
+section Src
+open TonVerif.Proofs.SrcArith
+set_option linter.unusedSimpArgs false
+
+/-- `LevelMask.get_level` = the hand model's `bitLength`, for ALL masks. -/
+theorem c02_src_level (m : Nat) : Generated.lmLevel_sideOk m ∧ Generated.lmLevel m = bitLength m := by
+  refine ⟨by simp only [Generated.lmLevel_sideOk]; src_arith, ?_⟩
+  simp only [Generated.lmLevel, py_bitLength_eq, py_popcount_eq]
+
+/-- `LevelMask.get_hash_index` = the number of one bits (`Spec.popcount` = the hand model's `popcount`), for ALL masks. -/
+theorem c02_src_hash_index (m : Nat) :
+    Generated.lmHashIndex_sideOk m ∧ Generated.lmHashIndex m = popcount m ∧ Generated.lmHashIndex m = Spec.popcount m := by
+  refine ⟨by simp only [Generated.lmHashIndex_sideOk]; src_arith, ?_, ?_⟩
+  · simp only [Generated.lmHashIndex, py_bitLength_eq, py_popcount_eq]
+  · simp only [Generated.lmHashIndex, py_bitLength_eq, py_popcount_eq, popcount_eq]
+
+/-- `LevelMask.apply(level).mask` = `mask mod 2^level` (the spec's `mask % 2^l`), for ALL masks and levels. -/
+theorem c02_src_apply (m level : Nat) :
+    Generated.lmApply_sideOk m level ∧ Generated.lmApply m level = maskApply m level := by
+  have hp : 0 < 2 ^ level := Nat.pow_pos (by decide)
+  refine ⟨?_, ?_⟩
+  · simp only [Generated.lmApply_sideOk, shiftLeft_lit, Nat.one_mul] <;> omega
+  · simp only [Generated.lmApply, maskApply, shiftLeft_lit, Nat.one_mul, and_mask]
+
+/-- `LevelMask.is_significant(level)` = level 0 or bit `level-1` of the mask (the spec's `mask.testBit (l-1)`). -/
+theorem c02_src_is_significant (m level : Nat) :
+    Generated.lmIsSignificant_sideOk m level ∧ Generated.lmIsSignificant m level = isSignificant m level ∧
+    (Generated.lmIsSignificant m (level + 1) = m.testBit level) := by
+  refine ⟨?_, ?_, ?_⟩
+  · simp only [Generated.lmIsSignificant_sideOk] <;> omega
+  · rw [Bool.eq_iff_iff]
+    simp only [Generated.lmIsSignificant, isSignificant, and_one, decide_eq_true_eq, Bool.or_eq_true, beq_iff_eq, bne_iff_ne]
+  · rw [Bool.eq_iff_iff]
+    simp only [Generated.lmIsSignificant, and_one, decide_eq_true_eq, Nat.add_sub_cancel, Nat.testBit, shiftRight_lit,
+      Nat.add_eq_zero_iff, Nat.one_ne_zero, and_false, false_or, Nat.one_and_eq_mod_two, Nat.and_one_is_mod, bne_iff_ne]
+
+/-- the hash index the code uses at a level (`apply(level).get_hash_index()`) is the hand model's `hashIndexAt`. -/
+theorem c02_src_hash_index_at (m level : Nat) :
+    Generated.lmHashIndex (Generated.lmApply m level) = hashIndexAt m level := by
+  rw [(c02_src_hash_index _).2.1, (c02_src_apply m level).2]; rfl
+
+/-- pruned-branch offsets: `get_hash` reads `data[2 + 32·i : 2 + 32·(i+1)]`, `get_depth` reads the two bytes at
+`2 + 32·popcount(mask) + 2·i` — exactly the offsets of `Spec.prunedHashAt` / `Spec.prunedDepthAt`. -/
+theorem c02_src_pruned_offsets (pi hi off : Nat) :
+    (Generated.prunedHashLo_sideOk hi ∧ Generated.prunedHashHi_sideOk hi ∧ Generated.prunedDepthOff_sideOk pi hi ∧
+      Generated.prunedDepthLo_sideOk off ∧ Generated.prunedDepthHi_sideOk off) ∧
+    Generated.prunedHashLo hi = 2 + 32 * hi ∧ Generated.prunedHashHi hi = 2 + 32 * (hi + 1) ∧
+    Generated.prunedDepthOff pi hi = 2 + 32 * pi + 2 * hi ∧
+    Generated.prunedDepthLo off = off ∧ Generated.prunedDepthHi off = off + 2 := by
+  refine ⟨⟨?_, ?_, ?_, ?_, ?_⟩, ?_, ?_, ?_, ?_, ?_⟩
+  · simp only [Generated.prunedHashLo_sideOk]; src_arith
+  · simp only [Generated.prunedHashHi_sideOk]; src_arith
+  · simp only [Generated.prunedDepthOff_sideOk]; src_arith
+  · simp only [Generated.prunedDepthLo_sideOk]; src_arith
+  · simp only [Generated.prunedDepthHi_sideOk]; src_arith
+  · simp only [Generated.prunedHashLo]; src_arith
+  · simp only [Generated.prunedHashHi]; src_arith
+  · simp only [Generated.prunedDepthOff]; src_arith
+  · simp only [Generated.prunedDepthLo]; src_arith
+  · simp only [Generated.prunedDepthHi]; src_arith
+
+/-- the hand model's `get_hash` / `get_depth` (what `c02_model_eq_spec` is proved about) are the source's index
+computations: hash index from `apply`+`get_hash_index`, pruned slices at the generated offsets. -/
+theorem c02_src_get_hash_depth (c : CellInfo) (lvl : Nat) :
+    c.getHash lvl =
+      (let hi := Generated.lmHashIndex (Generated.lmApply c.mask lvl)
+       if c.kind == kPruned then
+         (if hi != Generated.lmHashIndex c.mask then
+            some (pySlice (dataBytes c.bits) (Generated.prunedHashLo hi) (Generated.prunedHashHi hi))
+          else c.hashes[0]?)
+       else c.hashes[hi]?) ∧
+    c.getDepth lvl =
+      (let hi := Generated.lmHashIndex (Generated.lmApply c.mask lvl)
+       if c.kind == kPruned then
+         (if hi != Generated.lmHashIndex c.mask then
+            (let off := Generated.prunedDepthOff (Generated.lmHashIndex c.mask) hi
+             some (natOfBE (pySlice (dataBytes c.bits) (Generated.prunedDepthLo off) (Generated.prunedDepthHi off))))
+          else c.depths[0]?)
+       else c.depths[hi]?) := by
+  have e1 : ∀ hi, Generated.prunedHashLo hi = 2 + 32 * hi := fun hi => (c02_src_pruned_offsets 0 hi 0).2.1
+  have e2 : ∀ hi, Generated.prunedHashHi hi = 2 + 32 * (hi + 1) := fun hi => (c02_src_pruned_offsets 0 hi 0).2.2.1
+  have e3 : ∀ pi hi, Generated.prunedDepthOff pi hi = 2 + 32 * pi + 2 * hi := fun pi hi => (c02_src_pruned_offsets pi hi 0).2.2.2.1
+  have e4 : ∀ off, Generated.prunedDepthLo off = off := fun off => (c02_src_pruned_offsets 0 0 off).2.2.2.2.1
+  have e5 : ∀ off, Generated.prunedDepthHi off = off + 2 := fun off => (c02_src_pruned_offsets 0 0 off).2.2.2.2.2
+  have hP : ∀ m, Generated.lmHashIndex m = popcount m := fun m => (c02_src_hash_index m).2.1
+  simp only [CellInfo.getHash, CellInfo.getDepth, c02_src_hash_index_at]
+  simp only [hP, e1, e2, e3, e4, e5]
+  constructor
+  · have : ∀ h, 2 + h * 32 = 2 + 32 * h ∧ 2 + (h + 1) * 32 = 2 + 32 * (h + 1) := by intro h; omega
+    simp only [this]
+  · have : ∀ p h, 2 + 32 * p + h * 2 = 2 + 32 * p + 2 * h := by intro p h; omega
+    simp only [this]
+
+/-- descriptors of exotic cells: `get_refs_descriptor` / `get_bits_descriptor` compute the spec's d1 (with the exotic flag
+and the level MASK) and d2, for ALL reference counts, flags, masks and bit lengths — the two bytes every per-level hash of
+`c02_model_eq_spec` starts with (`Spec.plainHashAt`, `Spec.prunedHashAt`). -/
+theorem c02_src_descriptors (r : Nat) (exotic : Bool) (mask b : Nat) :
+    (Generated.refsDescriptor_sideOk r exotic mask ∧ Generated.bitsDescriptor_sideOk b) ∧
+    Generated.refsDescriptor r exotic mask = Spec.d1 r exotic mask ∧ Generated.bitsDescriptor b = Spec.d2 b ∧
+    descriptors r exotic b mask =
+      (do let d1 ← toBytesBE? Generated.refsDescriptor_width (Generated.refsDescriptor r exotic mask)
+          let d2 ← toBytesBE? Generated.bitsDescriptor_width (Generated.bitsDescriptor b)
+          pure (d1 ++ d2)) := by
+  have h1 : Generated.refsDescriptor r exotic mask = Spec.d1 r exotic mask := by
+    simp only [Generated.refsDescriptor, Spec.d1] <;> (cases exotic <;> src_arith)
+  have h2 : Generated.bitsDescriptor b = Spec.d2 b := by
+    simp only [Generated.bitsDescriptor, Spec.d2]; src_arith
+  refine ⟨⟨?_, ?_⟩, h1, h2, ?_⟩
+  · simp only [Generated.refsDescriptor_sideOk]; src_arith
+  · simp only [Generated.bitsDescriptor_sideOk]; src_arith
+  · rw [h1, h2, show Generated.refsDescriptor_width = 1 from rfl, show Generated.bitsDescriptor_width = 1 from rfl]
+    unfold descriptors Spec.d1 Spec.d2
+    have : (b / 8) * 2 + (if b % 8 != 0 then 1 else 0) = b / 8 + (b + 7) / 8 := by
+      by_cases h : b % 8 = 0 <;> simp [h] <;> omega
+    rw [this]
+
+/-- concrete values of the regenerated definitions on the gap mask 0b101. -/
+example : Generated.lmLevel 5 = 3 ∧ Generated.lmHashIndex 5 = 2 ∧ Generated.lmApply 7 2 = 3 ∧
+    Generated.lmIsSignificant 5 2 = false ∧ Generated.lmIsSignificant 5 3 = true ∧ Generated.prunedDepthOff 2 1 = 68 := by
+  decide +kernel
+
+end Src
 
 end TonVerif.Properties.C02
